@@ -130,6 +130,7 @@ impl SenderAttachError {
     ensures
         value is RemoteClosedWithError ==> r == Ok::<SenderAttachError, DetachError>(SenderAttachError::RemoteClosedWithError(value->RemoteClosedWithError_0)),       // [C14.attach.peer-error-kept] [C13.attach.peer-error-kept] the error the peer's detach carried is what the failed attach reports, unchanged
         value is RemoteDetachedWithError ==> r == Ok::<SenderAttachError, DetachError>(SenderAttachError::RemoteClosedWithError(value->RemoteDetachedWithError_0)),       // [C14.attach.peer-error-kept] [C13.attach.peer-error-kept]
+        r is Ok ==> r->Ok_0 is IllegalState || r->Ok_0 is SessionStopped || r->Ok_0 is RemoteClosedWithError,
         value is SessionStopped ==> r == Ok::<SenderAttachError, DetachError>(SenderAttachError::SessionStopped(value->SessionStopped_0)),       // [C14.attach.stop-reason-kept] who stopped, and why, survives the conversion
 //@@ end
 }
@@ -144,6 +145,7 @@ impl SenderAttachError {
 //@@ spec
     ensures
         final(link).session_stop_reason == old(link).session_stop_reason,
+        r == err || r is SessionStopped || r is IllegalState || r is RemoteClosedWithError || r is NonAttachFrameReceived,       // what is reported is the error handed in, the peer's, or that the session / the frame was not what was expected
         old(reader).got@.len() <= final(reader).got@.len() <= old(reader).got@.len() + 1,       // [C13.attach.one-frame-awaited] exactly one frame is awaited: the peer's answering detach
         final(reader).got@.len() == old(reader).got@.len() + 1 && final(reader).got@.last() is Detach ==> ({
             let d = final(reader).got@.last()->Detach_0;
@@ -205,6 +207,8 @@ pub open spec fn detaches_from(ops: Seq<Op>, from: int) -> nat decreases ops.len
             && final(link).ops@[old(link).ops@.len() as int]->SendDetach_0 && final(link).ops@[old(link).ops@.len() as int]->SendDetach_1 is Some,       // [C13.attach.refused-attach-closed-with-error] an attach this end has to refuse is answered with a CLOSING detach that names an error, before anything else
         final(link).ops@.len() == old(link).ops@.len() + 2 ==> final(link).ops@.last() is OnDetach,                                                    // [C13.attach.at-most-one-detach] one detach at most is written for the refused attach; what follows it is the peer's answer, taken from the channel and applied
         final(link).ops@.len() == old(link).ops@.len() ==> final(reader).got == old(reader).got,                                                       // nothing is awaited unless the detach went out
+        r == attach_error && (attach_error is CoordinatorIsNotImplemented || attach_error is SourceAddressIsSomeWhenDynamicIsTrue || attach_error is TargetAddressIsNoneWhenDynamicIsTrue || attach_error is DynamicNodePropertiesIsSomeWhenDynamicIsFalse)
+            ==> final(link).ops@.len() > old(link).ops@.len(),       // [C13.attach.refused-attach-is-closed]
 //@@ end
 
 impl L {
@@ -225,6 +229,9 @@ impl L {
         (attach_error is SessionStopped || attach_error is SessionNotMapped || attach_error is IllegalState || attach_error is NonAttachFrameReceived || attach_error is ExpectImmediateDetach || attach_error is RemoteClosedWithError)
             ==> r == attach_error && final(self).ops == old(self).ops && final(reader).got == old(reader).got,       // [C13.attach.failed-attach-writes-nothing] [C14.attach.error-kept] an attach that failed because the session or the peer went away (or the peer already closed the link with its error) is reported as it is: no detach is written for a link that was never attached
         forall|i: int| old(self).ops@.len() <= i < final(self).ops@.len() && #[trigger] final(self).ops@[i] is SendDetach ==> final(self).ops@[i]->SendDetach_0 && i == old(self).ops@.len(),       // [C13.attach.refused-attach-closed] [C13.attach.at-most-one-detach] a detach written for a refused attach is a CLOSING one, it is the first thing written, and there is no second one
+        (attach_error is IncomingTargetIsNone || attach_error is SndSettleModeNotSupported || attach_error is CoordinatorIsNotImplemented || attach_error is SourceAddressIsSomeWhenDynamicIsTrue
+            || attach_error is TargetAddressIsNoneWhenDynamicIsTrue || attach_error is DynamicNodePropertiesIsSomeWhenDynamicIsFalse) && r == attach_error
+            ==> final(self).ops@.len() > old(self).ops@.len() && final(self).ops@[old(self).ops@.len() as int] is SendDetach,       // [C13.attach.refused-attach-is-closed] when THIS end refuses the peer's attach and says so to its caller, the closing detach has been written: the peer is not left with a link nobody owns (if the detach cannot be written the caller is told that the session is gone instead)
         final(self).ops@.len() == old(self).ops@.len() + 2 ==> final(self).ops@.last() is OnDetach,       // [C13.attach.at-most-one-detach]
 //@@ end
 }
@@ -260,6 +267,7 @@ impl ReceiverAttachError {
     ensures
         value is RemoteClosedWithError ==> r == Ok::<ReceiverAttachError, DetachError>(ReceiverAttachError::RemoteClosedWithError(value->RemoteClosedWithError_0)),       // [C14.attach.peer-error-kept] [C13.attach.peer-error-kept] the error the peer's detach carried is what the failed attach reports, unchanged
         value is RemoteDetachedWithError ==> r == Ok::<ReceiverAttachError, DetachError>(ReceiverAttachError::RemoteClosedWithError(value->RemoteDetachedWithError_0)),       // [C14.attach.peer-error-kept] [C13.attach.peer-error-kept]
+        r is Ok ==> r->Ok_0 is IllegalState || r->Ok_0 is SessionStopped || r->Ok_0 is RemoteClosedWithError,
         value is SessionStopped ==> r == Ok::<ReceiverAttachError, DetachError>(ReceiverAttachError::SessionStopped(value->SessionStopped_0)),       // [C14.attach.stop-reason-kept] who stopped, and why, survives the conversion
 //@@ end
 }
@@ -274,6 +282,7 @@ impl ReceiverAttachError {
 //@@ spec
     ensures
         final(link).session_stop_reason == old(link).session_stop_reason,
+        r == err || r is SessionStopped || r is IllegalState || r is RemoteClosedWithError || r is NonAttachFrameReceived,       // what is reported is the error handed in, the peer's, or that the session / the frame was not what was expected
         old(reader).got@.len() <= final(reader).got@.len() <= old(reader).got@.len() + 1,       // [C13.attach.one-frame-awaited] exactly one frame is awaited: the peer's answering detach
         final(reader).got@.len() == old(reader).got@.len() + 1 && final(reader).got@.last() is Detach ==> ({
             let d = final(reader).got@.last()->Detach_0;
@@ -332,6 +341,9 @@ impl L {
         (attach_error is SessionStopped || attach_error is IllegalState || attach_error is NonAttachFrameReceived || attach_error is ExpectImmediateDetach || attach_error is RemoteClosedWithError)
             ==> r == attach_error && final(self).ops == old(self).ops && final(reader).got == old(reader).got,       // [C13.attach.failed-attach-writes-nothing] [C14.attach.error-kept]
         forall|i: int| old(self).ops@.len() <= i < final(self).ops@.len() && #[trigger] final(self).ops@[i] is SendDetach ==> final(self).ops@[i]->SendDetach_0 && i == old(self).ops@.len(),       // [C13.attach.refused-attach-closed]
+        (attach_error is IncomingSourceIsNone || attach_error is CoordinatorIsNotImplemented || attach_error is InitialDeliveryCountIsNone || attach_error is SourceAddressIsNoneWhenDynamicIsTrue
+            || attach_error is TargetAddressIsSomeWhenDynamicIsTrue || attach_error is DynamicNodePropertiesIsSomeWhenDynamicIsFalse) && r == attach_error
+            ==> final(self).ops@.len() > old(self).ops@.len() && final(self).ops@[old(self).ops@.len() as int] is SendDetach,       // [C13.attach.refused-attach-is-closed]
         final(self).ops@.len() == old(self).ops@.len() + 2 ==> final(self).ops@.last() is OnDetach,       // [C13.attach.at-most-one-detach]
 //@@ end
 }
